@@ -490,8 +490,49 @@ impl Prop for SrcProp {
                 best = cand;
             }
         }
-        if best.range.is_some() {
-            // ranges do not survive text edits: reduce text only by suffix/prefix removal that keeps the range valid
+        if let Some((rs, re)) = best.range {
+            // ranges do not survive arbitrary text edits: only whole top-level nodes that lie entirely
+            // before or after the requested range are deleted (the range is shifted accordingly)
+            let mut rs = rs;
+            let mut re = re;
+            loop {
+                let root = syn::parse(&best.src);
+                let mut spans: Vec<(usize, usize)> = vec![];
+                let mut off = 0;
+                for ch in root.children() {
+                    spans.push((off, off + ch.len()));
+                    off += ch.len();
+                }
+                let mut changed = false;
+                for &(a, b) in spans.iter().rev() {
+                    if b <= a {
+                        continue;
+                    }
+                    let lo = rs.min(best.src.len());
+                    let hi = re.min(best.src.len());
+                    let (nrs, nre) = if a >= hi && a > lo {
+                        (rs, re)
+                    } else if b <= lo {
+                        (rs - (b - a), if re > best.src.len() { re } else { re - (b - a) })
+                    } else {
+                        continue;
+                    };
+                    let mut t = String::with_capacity(best.src.len());
+                    t.push_str(&best.src[..a]);
+                    t.push_str(&best.src[b..]);
+                    let cand = SrcCase { src: t, range: Some((nrs, nre)), ..best.clone() };
+                    if fails(&cand) {
+                        best = cand;
+                        rs = nrs;
+                        re = nre;
+                        changed = true;
+                        break;
+                    }
+                }
+                if !changed {
+                    break;
+                }
+            }
             return best;
         }
         let need_wf = true;
